@@ -6,7 +6,8 @@
    calls and the Validate pass of Build) - "no definition together with a nil error that later fails to
    build" (within explicit guards a well-formed schema is compiled; outside them it is refused), and the
    compiler model never yields a panic (the builder's panics are recovered in buildAppDefs - a flag
-   read off the source).  NOT shown by any theorem:
+   read off the source) nor a definition that fails to build (the analyser has the two checks `wf`
+   has - two more flags).  NOT shown by any theorem:
    totality and determinism of the Go code on arbitrary texts, error positions (observed by the
    harness on mutated shipped sources and byte strings, see notes/C16.md). *)
 From Coq Require Import List NArith ZArith Bool String.
@@ -71,6 +72,20 @@ Proof. reflexivity. Qed.
 Lemma grant_rules_in_operation_order : parser_grant_rules_sorted = true.
 Proof. reflexivity. Qed.
 
+(* source anchors of four repairs whose subject lies outside the C17 fragment (texts only; the claims
+   themselves are observed by the harness, not proved): a ROLE outside a workspace is an error
+   (C16-F3, 7ddd85b13), the missing view intent of a job is reported without touching the absent
+   projector (C16-F4, a6c74ddce), field sets that include themselves are an error (C16-F5, f76fc3ec8),
+   grants are compiled in package path order (C16-F8, 4db55a7c2).  Reverting one breaks its lemma. *)
+Lemma role_outside_workspace_is_error : parser_role_outside_workspace_is_error = true.
+Proof. reflexivity. Qed.
+Lemma view_intent_error_without_projector : parser_view_intent_error_without_projector = true.
+Proof. reflexivity. Qed.
+Lemma field_set_cycles_checked : parser_field_set_cycles_checked = true.
+Proof. reflexivity. Qed.
+Lemma grants_in_package_path_order : parser_grants_in_package_path_order = true.
+Proof. reflexivity. Qed.
+
 (* the headline: the compiler model never panics, on any schema (no guard, not even wf) *)
 Theorem compiler_model_total : forall a, compile16 a <> VPanic.
 Proof. exact (compile16_total_flag builder_panics_recovered). Qed.
@@ -85,18 +100,29 @@ Theorem handed_out_definition_builds :
   forall a d, compile16 a = VCompiled d -> builder_valid d = true /\ wf a = true.
 Proof. exact (compile16_accepts_valid_proved parser_recovers_builder_panics go_checks). Qed.
 
-(* "No nil error followed by a failing Build()" as a statement about the compiler model:
-     forall a, compile16 a <> VInvalid
-   It holds for an analyser that checks the two rules itself ... *)
+(* side conditions: the compiler itself refuses a view without partition key group (repair of C16-F6,
+   55541a167) and a GRANT / REVOKE whose class matches nothing in its workspace (repair of C16-F7,
+   510061369) - read off pkg/parser by the translator.  A regression flips a flag and re-opens these. *)
+Lemma compiler_checks_view_partition_key : parser_checks_view_partition_key = true.
+Proof. reflexivity. Qed.
+Lemma compiler_checks_grant_matches : parser_checks_grant_matches = true.
+Proof. reflexivity. Qed.
+
+(* the second headline - "no nil error followed by a failing Build()" as a statement about the compiler
+   model: no schema at all (no guard, not even wf) gets the verdict Invalid *)
+Theorem no_unbuildable_definition : forall a, compile16 a <> VInvalid.
+Proof. exact (compile16_never_invalid_flag compiler_checks_view_partition_key compiler_checks_grant_matches). Qed.
+
+(* the same for any analyser that has both checks, whether or not it recovers builder panics ... *)
 Theorem no_unbuildable_definition_when_analyser_checks :
   forall r a, compile16_with r (PChecks true true) a <> VInvalid.
 Proof. exact compile16_never_invalid_proved. Qed.
 
-(* ... and is refuted for an analyser that lacks one of the checks - as the shipped one lacks both
-   (`go_checks`, read off the source by the translator; findings C16-F6, C16-F7): a view without
-   partition key group, and GRANT ... ON ALL VIEWS in a workspace without views, are handed to the
-   builder, which refuses them; replayed on the real compiler by
-   corpus/C16/f6_view_without_partition_key.json and f7_grant_all_views_none.json *)
+(* ... and is refuted for an analyser that lacks one of the checks - as the shipped one lacked both
+   before 55541a167 / 510061369 (former findings C16-F6, C16-F7): a view without partition key group,
+   and GRANT ... ON ALL VIEWS in a workspace without views, are handed to the builder, which refuses
+   them.  The statements are about the flag-false variants; the real compiler is replayed on
+   corpus/C16/f6_view_without_partition_key.json and f7_grant_all_views_none.json on every run *)
 Definition a_view_no_pk : schema := [(Pkg "app1"%string [[(Ws "Ws1"%string false [] None [(ITable (Table "T"%string false (Some (QR "sys"%string "CDoc"%string)) [(TField (Fld "a"%string DInt32 false false None))])); (IProj (Proj "P"%string false false [(TrTab true false false false [(QR ""%string "T"%string)])] [(QR ""%string "V"%string)] false)); (IView (View "V"%string [(VField "c"%string DInt64 false); (VField "x"%string DInt32 false)] [] ["c"%string] (QR ""%string "P"%string)))])]])].
 Definition a_grant_no_views : schema := [(Pkg "app1"%string [[(Ws "Ws1"%string false [] None [(IRole "R"%string false); (IGrant (Grant false GAllViews (QR ""%string "R"%string)))])]])].
 
@@ -181,6 +207,7 @@ Print Assumptions compiled_definition_passes_validation.
 Print Assumptions compiler_model_total.
 Print Assumptions compiler_model_compiles_within_guards.
 Print Assumptions handed_out_definition_builds.
+Print Assumptions no_unbuildable_definition.
 Print Assumptions no_unbuildable_definition_when_analyser_checks.
 Print Assumptions unbuildable_definition_refuted_F6.
 Print Assumptions unbuildable_definition_refuted_F7.
